@@ -18,6 +18,7 @@ def run(ctx):
         "PCW / PCG only for regions whose table has a non-zero maximum capillary pressure (else 0 * (PCW / 0) = NaN, design.d/C15.md finding F-C15-1)",
         "hysteresis: EHYSTR item 2 = 0..4, flag KR / PC / BOTH at template and deck level (complete EclHysteresisTwoPhaseLawParams object, Model/HystFull.lean); no WAG; the Killough statements of the property mode apply where the imbibition critical saturation is not below the drainage one (decided from the input end-points)",
         "three phases, default three-phase oil relperm model",
+        "cells that scale only a subset of their end-points (property mode): the eight saturation end-points of the cell stay ordered; three-point vertical scaling (KRWR/KRGR/KRORW/KRORG) only where the table has 0 < KRxR < KRx and the cell's three scaling points of that curve are distinct (KRxR and KRx given for one and the same saturation is contradictory input)",
     ]
     if not ctx.stage_build_opm():
         return ctx.finish(trusted_base=TRUSTED)
